@@ -132,6 +132,20 @@ theorem close_quiescent {s : State κ ν} (hr : Reach (lts fixedCfg) s) (hc : s.
     rw [ht] at this
     cases this
 
+/-- **close_quiescent** for every call: once ANY call to `Close` has returned — the one that won
+the CompareAndSwap or a concurrent one that lost it — there is no loop goroutine, no callback is
+running, and the running token is taken for good. -/
+theorem close_quiescent_any {s : State κ ν} (hr : Reach (lts fixedCfg) s) (hc : Event.closeRet ∈ s.log) :
+    s.pc = .absent ∧ s.token = .close := by
+  have hA := invA hr
+  have ht : s.token = .close := invG hr hc
+  refine ⟨?_, ht⟩
+  by_cases h : s.pc = .absent
+  · exact h
+  · have := hA.1.mpr h
+    rw [ht] at this
+    cases this
+
 /-- **close_quiescent** (history form): nothing is popped and no callback starts after the return
 of `Close`. -/
 theorem close_quiescent_trace {s : State κ ν} (hr : Reach (lts fixedCfg) s) {post pre : List (Event κ ν)}
@@ -240,6 +254,32 @@ theorem stranding_schedule_fixed :
     runFrom fixedCfg init
       [.enqueue 1 10 () true, .dequeue 1 true, .peek none, .enqueue 2 5 () true] = some restartedState := by
   simp [runFrom, restartedState, step, init, process, enqGuard, deqGuard, lookup, remove, Queue.insert, IsHead, IsMin]
+
+/-! ## `Close` before the second fix: a losing call returns too early -/
+
+/-- The winning `Close` has done its CAS but not yet closed `stopCh`; a second `Close` loses the CAS,
+finds the WaitGroup empty and returns; an `Enqueue` that had passed its stopped check earlier now
+runs its body, starts a loop, and the loop executes the item. -/
+def closeLoserSchedule : List (Label Nat Unit) :=
+  [.closeBegin, .closeAgain, .enqueue 1 0 () true, .peek (some ⟨1, 0, (), 0⟩), .pollNone, .decide,
+   .execCheck (some ⟨1, 0, (), 0⟩), .cbStart]
+
+def closeLoserState : State Nat Unit :=
+  { q := [], token := .loop, reset := false, stopped := true, stopClosed := false,
+    pc := .running ⟨1, 0, (), 0⟩, cpc := .casDone, now := 0, nextId := 1,
+    log := [.exec ⟨1, 0, (), 0⟩ 0, .pop ⟨1, 0, (), 0⟩, .enq ⟨1, 0, (), 0⟩, .closeRet] }
+
+theorem close_loser_run : runFrom ⟨false⟩ init closeLoserSchedule = some closeLoserState := by
+  simp [runFrom, closeLoserSchedule, closeLoserState, step, init, process, enqGuard, lookup, remove,
+    Queue.insert, IsHead, IsMin, pop, halfMs]
+
+/-- **close_loser_witness**: with the `Close` of the unchanged tree (`fixed = false`) a callback
+starts after a call to `Close` has returned — `close_quiescent_trace` is false there. -/
+theorem close_loser_witness :
+    ∃ (s : State Nat Unit) (post pre : List (Event Nat Unit)) (r : Item Nat Unit) (n : Int),
+      Reach (lts ⟨false⟩) s ∧ s.log = post ++ .closeRet :: pre ∧ Event.exec r n ∈ post :=
+  ⟨closeLoserState, [.exec ⟨1, 0, (), 0⟩ 0, .pop ⟨1, 0, (), 0⟩, .enq ⟨1, 0, (), 0⟩], [], ⟨1, 0, (), 0⟩, 0,
+   reach_of_run Reach.init close_loser_run, rfl, by simp⟩
 
 /-! ## non-vacuity: the hypotheses of the theorems above are satisfiable -/
 
